@@ -1,1 +1,83 @@
-// contracts needing private items of src/compression.rs
+// Kani BOUNDED stand-ins for src/compression.rs: the REAL `compress_kmers` pipeline (BoomHashMap2 construction,
+// build_node, extend_kmer, BaseGraph::add) on a CONCRETE k-mer set whose links are switched on/off symbolically.
+// Concrete keys keep the third-party MPHF construction tractable for CBMC (symbolic keys are not).
+// Nothing here is counted as proved; it is the only executable cross-check of the C01/C02 assembly step
+// (build_node) which no unbounded contract reaches.
+
+use super::*;
+use crate::kmer::Kmer4;
+use crate::verif::src::Src;
+use crate::verif::{chk, harness};
+use crate::{Kmer, Mer, Vmer};
+
+fn k4(s: &[u8; 4]) -> Kmer4 {
+    Kmer4::from_ascii(s)
+}
+
+/// BOUNDED: the three 4-mers of the read AAACGA (stranded mode), each of the two links present or absent
+/// (symbolic, symmetric on both k-mers), payload 1 per k-mer reduced by +. Checks the C01 clauses on the result:
+/// every input k-mer occurs in exactly one node at exactly one offset, no node contains a foreign k-mer, node
+/// count = number of connected components, payload = number of k-mers of the node, no dangling extension.
+pub fn c_compress_chain3<S: Src>(s: &mut S) {
+    let keys = [k4(b"AAAC"), k4(b"AACG"), k4(b"ACGA")];
+    let l1 = s.bool();
+    let l2 = s.bool();
+    s.cover(l1 && !l2);
+    let mut e = [Exts::empty(); 3];
+    if l1 {
+        e[0] = e[0].set(Dir::Right, 2); // AAAC -G-> AACG
+        e[1] = e[1].set(Dir::Left, 0); //  AACG <-A- AAAC
+    }
+    if l2 {
+        e[1] = e[1].set(Dir::Right, 0); // AACG -A-> ACGA
+        e[2] = e[2].set(Dir::Left, 0); //  ACGA <-A- AACG
+    }
+    let table = [(keys[0], (e[0], 1u16)), (keys[1], (e[1], 1u16)), (keys[2], (e[2], 1u16))];
+    let spec = SimpleCompress::new(|a: u16, b: &u16| a + *b);
+    let g = compress_kmers(true, &spec, &table);
+    let n_nodes = g.len();
+    let expect_nodes = 3 - (l1 as usize) - (l2 as usize);
+    chk!(s, n_nodes == expect_nodes, "node count = number of maximal unbranched paths");
+    let mut seen = [0u8; 3];
+    let mut total = 0usize;
+    let mut i = 0;
+    while i < n_nodes {
+        let sq = g.sequences.get(i);
+        let len = sq.len();
+        chk!(s, len >= 4 && len <= 6, "node length");
+        let nk = len - 3;
+        chk!(s, g.data[i] as usize == nk, "payload = reduction over exactly the node's k-mers");
+        chk!(s, g.exts[i].val == 0, "no extension left pointing outside the (closed) table");
+        let mut w = 0;
+        while w < nk {
+            let km: Kmer4 = sq.get_kmer(w);
+            let mut hit = 3usize;
+            let mut t = 0;
+            while t < 3 {
+                if km == keys[t] {
+                    hit = t;
+                }
+                t += 1;
+            }
+            chk!(s, hit < 3, "no node contains a k-mer that was not in the table");
+            if hit < 3 {
+                seen[hit] += 1;
+            }
+            w += 1;
+        }
+        total += nk;
+        i += 1;
+    }
+    chk!(s, total == 3, "nodes hold exactly as many k-mers as the table");
+    chk!(s, seen[0] == 1 && seen[1] == 1 && seen[2] == 1, "each input k-mer occurs in exactly one node at exactly one offset");
+}
+
+harness!(c_compress_chain3_h, c_compress_chain3, unwind 70);
+
+pub fn replay(name: &str, s: &mut crate::verif::src::RSrc) -> bool {
+    match name {
+        "c_compress_chain3_h" => c_compress_chain3(s),
+        _ => return false,
+    }
+    true
+}
